@@ -362,9 +362,12 @@ Definition band_slots (ps : pystate) (comp : pystr) (sx sy : Z) (band : Z * orie
                          (zrange (slice_left ps sx comp level) (slice_right ps sx comp level)))
            (zrange (slice_top ps sy comp level) (slice_bottom ps sy comp level)).
 Definition comp_slots ps comp sx sy : list slot := flat_map (band_slots ps comp sx sy) (bands ps).
-Definition chroma_slots ps sx sy : list slot :=
-  flat_map (fun s => let '(_, level, o, y, x) := s in [(Str_C1, level, o, y, x); (Str_C2, level, o, y, x)])
-           (comp_slots ps Str_C1 sx sy).
+Definition chroma_band_slots (ps : pystate) (sx sy : Z) (band : Z * orient) : list slot :=
+  let '(level, o) := band in
+  flat_map (fun y => flat_map (fun x => [(Str_C1, level, o, y, x); (Str_C2, level, o, y, x)])
+                              (zrange (slice_left ps sx Str_C1 level) (slice_right ps sx Str_C1 level)))
+           (zrange (slice_top ps sy Str_C1 level) (slice_bottom ps sy Str_C1 level)).
+Definition chroma_slots ps sx sy : list slot := flat_map (chroma_band_slots ps sx sy) (bands ps).
 
 Definition slot_level_orient (s : slot) : Z * orient := let '(_, level, o, _, _) := s in (level, o).
 Definition dequant (qz : Z -> orient -> Z) (slots : list slot) (vals : list Z) : list write :=
